@@ -147,15 +147,31 @@ type simState struct {
 	// 4: exactly the wafter-th Write call is refused as a whole (0 bytes, an
 	// error) and every other call is accepted: a sink that is full once and
 	// drained afterwards
+	// 5: Write formats a Decimal itself before accepting the bytes
 	wmode, wafter int
 	refused       bool
+	depth         int
+	nested        string
 }
+
+var nestedDec = decimal128.New(-15, -1)
 
 // peerPanic is what a simulated peer panics with.
 type peerPanic struct{}
 
 func (s *simState) Write(b []byte) (int, error) {
 	s.writes++
+	if s.wmode == 5 {
+		// a logging or auditing sink: its Write formats a Decimal of its own
+		// before it accepts the bytes (the library is re-entered from inside
+		// Format)
+		if s.depth == 0 {
+			s.depth++
+			s.nested = fmt.Sprintf("%v|%.2f", nestedDec, nestedDec)
+			s.depth--
+		}
+		return s.out.Write(b)
+	}
 	if s.wmode == 4 {
 		if s.writes == s.wafter {
 			s.refused = true
@@ -335,6 +351,9 @@ func init() {
 				a.Format(st, rune(verb))
 			}()
 			r.str(st.out.String())
+			if st.wmode == 5 && st.writes > 0 && st.nested != "-1.5|-1.50" {
+				r.extra("a Decimal formatted inside the State's Write came out as " + st.nested)
+			}
 			r.int(int64(st.writes))
 			if st.refused {
 				r.int(1)
@@ -348,6 +367,9 @@ func init() {
 		}
 		if len(r.S) == 0 {
 			return ""
+		}
+		if len(r.X) > 0 {
+			return r.X[0]
 		}
 		if len(r.I) >= 2 && r.I[1] == 1 {
 			// the State refused bytes: termination without a panic is
